@@ -297,6 +297,15 @@ def classify_merge_loss(lost, merged_text, vendor, texts=None):
             # children rules of this row come from %global rules only
             shadowed = ("merge-reverse-match-shadows-children" if f_other["is_reverse"]
                         else "merge-global-shadows-local-children")
+
+            # the recorded mechanisms need the shadowing match to be strictly more specific: on a tie of
+            # (prio, shared characters) the direct local match comes first
+            def metric(rule, other):
+                rx = rule["attrs"]["reverse_regexp" if other["is_reverse"] else "direct_regexp"].pattern
+                return (rule["attrs"]["prio"], len(set(row) & set(rx)) / len(row))
+            m0 = metric(f_rule, f_other)
+            if any(cr_ok and metric(rule, other) == m0 for (rule, cr_ok), other in ms[1:]):
+                return "acl-match-tie-not-resolved-for-the-direct-local-rule"
         match, rules = patching._select_match(ms, rules)
         if match is None:
             return "merge-not-monotone"
